@@ -2,6 +2,7 @@ package main
 
 import (
 	"math/rand"
+	"time"
 	"unicode/utf8"
 
 	"golang.org/x/text/transform"
@@ -181,13 +182,37 @@ func genGsm7(g *genCtx) {
 }
 
 func guard(f func()) (panicked bool) {
-	defer func() {
-		if p := recover(); p != nil {
-			panicked = true
-		}
+	p, _ := guardT(f, "")
+	return p
+}
+
+var hangs = map[string]int{}
+
+// guardT runs f under recover and a 2 s watchdog.  A call that does not return is
+// abandoned (its goroutine keeps spinning until the process exits); after two hangs
+// at the same site further calls at that site are reported as hung without being made.
+func guardT(f func(), site string) (panicked, hung bool) {
+	if site != "" && hangs[site] >= 2 {
+		return false, true
+	}
+	done := make(chan bool, 1)
+	go func() {
+		defer func() {
+			if p := recover(); p != nil {
+				done <- true
+				return
+			}
+		}()
+		f()
+		done <- false
 	}()
-	f()
-	return false
+	select {
+	case p := <-done:
+		return p, false
+	case <-time.After(2 * time.Second):
+		hangs[site]++
+		return false, true
+	}
 }
 
 func runGsm7(c Case, tr *Tracer) {
